@@ -399,6 +399,38 @@ pub fn c01u_ops<const N: usize>() {
     vf::check(m.len() <= m.capacity() && m.capacity() == N && m.is_empty() == (md.n == 0), 206);
 }
 
+/// zero-sized key and value (`Map<(), (), N>`): every slot has the same address and nothing is ever copied; the
+/// map holds one entry at most.  Three solver-chosen operations against a one-bit model.
+pub fn c01_zst<const N: usize>() {
+    let mut m: micromap::Map<(), (), N> = empty_map();
+    let mut has = false;
+    let mut step = 0;
+    while step < 3 {
+        let (op, b) = (vf::any_u8(), vf::any_bool());
+        vf::assume(op < 11);
+        match op {
+            0 => { vf::reach(1); let r = m.insert((), ()); vf::check(r.is_some() == has, 401); has = true; }
+            1 => { let r = m.checked_insert((), ()); vf::check(r == Some(if has { Some(()) } else { None }), 422); has = true; }
+            2 => { let r = m.insert_key_value((), ()); vf::check(r.is_some() == has, 411); has = true; }
+            3 => { vf::reach(2); vf::check(m.remove(&()).is_some() == has, 451); has = false; }
+            4 => { vf::check(m.remove_entry(&()).is_some() == has, 461); has = false; }
+            5 => { m.retain(|_, _| b); has = has && b; }
+            6 => { vf::check(m.get(&()).is_some() == has && m.contains_key(&()) == has && m.get_key_value(&()).is_some() == has && m.get_mut(&()).is_some() == has, 431); }
+            7 => { let _ = m.entry(()).or_insert(()); has = true; }
+            8 => { let c = m.clone(); vf::check(c == m && c.len() == m.len() && c.contains_key(&()) == has, 1502); }
+            9 => { m.clear(); has = false; }
+            _ => { let [r] = m.get_disjoint_mut([&()]); vf::check(r.is_some() == has, 1301); }
+        }
+        let n = has as usize;
+        vf::check(m.len() == n && m.is_empty() == !has && m.capacity() == N, 201);
+        let mut t = 0usize;
+        for _ in m.iter() { t += 1; }
+        vf::check(t == n, 202);
+        vf::check(m.contains_key(&()) == has, 204);
+        step += 1;
+    }
+}
+
 /// C06: every element reference handed out points inside the bytes of the container value itself
 pub fn c06_refs<const N: usize>() {
     tok::reset();
@@ -443,6 +475,7 @@ pub fn c06_refs_set<const N: usize>() {
 }
 
 harnesses! {
+    c01_zst: [1] [2];
     c06_refs: [1] [2] [3];
     c06_refs_set: [1] [2] [3];
     c01_insert: [0] [1] [2] [3];
